@@ -50,6 +50,12 @@ func (f *Mapc) Call(s *slip.Scope, args slip.List, depth int) (result slip.Objec
 	fn := args[0]
 	d2 := depth + 1
 	caller := ResolveToCaller(s, fn, d2)
+	// nil is the empty list, nothing to map over; the first list is returned.
+	for i := 1; i < len(args); i++ {
+		if args[i] == nil {
+			return args[1]
+		}
+	}
 
 	list, ok := args[1].(slip.List)
 	if !ok {
